@@ -100,8 +100,21 @@ def run(prog, rep):
         # Equal token skeletons are sufficient but not necessary (a one-sided refactoring keeps the behaviour and changes the tokens), so the
         # verdict is taken on the sets of abstract paths: which member functions are called, what is thrown, what is returned.
         pa, pb = effect_paths(prog, fa[0]), effect_paths(prog, fb[0])
-        if pa == pb:
-            rep.ok('R10.3', name, sample={'twins': '%s / %s :: %s' % (a, b, name), 'abstract_paths': len(pa), 'same_token_skeleton': sa == sb})
+        # and, cell by cell over the concrete row states of R9.3, the same outcome, calls and effects on the counters (differential abstract execution)
+        from rules import c09
+        if name == 'ParseNextRow':
+            ea, eb = c09.reader_row_effects(prog, a), c09.reader_row_effects(prog, b)
+            legend = '(line parser result, header flag, line, header width, row width, previous width)'
+        else:
+            ea, eb = c09.writer_value_effects(prog, a), c09.writer_value_effects(prog, b)
+            legend = '(row index, values already in the row, header flag)'
+        diff = [c for c in sorted(ea) if ea[c] != eb.get(c)]
+        if pa == pb and not diff:
+            rep.ok('R10.3', name, sample={'twins': '%s / %s :: %s' % (a, b, name), 'abstract_paths': len(pa), 'state_cells_compared': len(ea), 'same_token_skeleton': sa == sb})
+        elif diff:
+            c = diff[0]
+            rep.finding('R10.3', name, fb[0].loc(), '%s::%s and %s::%s have diverged: in state %s = %s the memory version does %s, the stream version does %s'
+                        % (a, name, b, name, legend, c, sorted(ea[c]), sorted(eb.get(c, ()))), func=fb[0].id)
         else:
             only_a, only_b = sorted(pa - pb), sorted(pb - pa)
             rep.finding('R10.3', name, fb[0].loc(), '%s::%s and %s::%s have diverged: path(s) only in the memory version %s, only in the stream version %s'
